@@ -234,6 +234,84 @@ fn px_load_none<Q>(_p: u32, _via: u8) -> Option<Q> {
     None
 }
 
+/// The forwarding half of `impl Quire<PxE2<N>> for Q32E2` (from_bits, to_bits, is_zero, is_nar,
+/// clear, neg): on Q32E2 the "through the trait" selector (`via` 1) goes through this facade instead
+/// of `Quire<P32E2>` when the image at hand has odd parity in its lowest limb — a pure function of
+/// the state, so nothing in the event stream changes. The width is irrelevant to these methods;
+/// four widths are instantiated.
+pub trait PxFacade: Sized {
+    fn px_from_img(_img: &Img) -> Option<Self> {
+        None
+    }
+    fn px_img(&self) -> Option<Img> {
+        None
+    }
+    fn px_is_zero(&self) -> Option<bool> {
+        None
+    }
+    fn px_is_nar(&self) -> Option<bool> {
+        None
+    }
+    fn px_clear(&mut self) -> bool {
+        false
+    }
+    fn px_neg(&mut self) -> bool {
+        false
+    }
+}
+impl PxFacade for Q8E0 {}
+impl PxFacade for Q16E1 {}
+fn px_facade_width(img: &Img) -> Option<u32> {
+    let c = img[7].count_ones() + img[0].count_ones();
+    if c & 1 == 1 {
+        Some([2, 9, 17, 32][((c >> 1) & 3) as usize])
+    } else {
+        None
+    }
+}
+macro_rules! px_facade {
+    ($w:expr, |$T:ident| $body:expr) => {
+        match $w {
+            2 => { type $T = PxE2<2>; $body }
+            9 => { type $T = PxE2<9>; $body }
+            17 => { type $T = PxE2<17>; $body }
+            _ => { type $T = PxE2<32>; $body }
+        }
+    };
+}
+impl PxFacade for Q32E2 {
+    fn px_from_img(img: &Img) -> Option<Self> {
+        px_facade_width(img).map(|w| px_facade!(w, |T| <Q32E2 as Quire<T>>::from_bits(*img)))
+    }
+    fn px_img(&self) -> Option<Img> {
+        px_facade_width(&Q32E2::to_bits(self)).map(|w| px_facade!(w, |T| <Q32E2 as Quire<T>>::to_bits(self)))
+    }
+    fn px_is_zero(&self) -> Option<bool> {
+        px_facade_width(&Q32E2::to_bits(self)).map(|w| px_facade!(w, |T| <Q32E2 as Quire<T>>::is_zero(self)))
+    }
+    fn px_is_nar(&self) -> Option<bool> {
+        px_facade_width(&Q32E2::to_bits(self)).map(|w| px_facade!(w, |T| <Q32E2 as Quire<T>>::is_nar(self)))
+    }
+    fn px_clear(&mut self) -> bool {
+        match px_facade_width(&Q32E2::to_bits(self)) {
+            Some(w) => {
+                px_facade!(w, |T| <Q32E2 as Quire<T>>::clear(self));
+                true
+            }
+            None => false,
+        }
+    }
+    fn px_neg(&mut self) -> bool {
+        match px_facade_width(&Q32E2::to_bits(self)) {
+            Some(w) => {
+                px_facade!(w, |T| <Q32E2 as Quire<T>>::neg(self));
+                true
+            }
+            None => false,
+        }
+    }
+}
+
 macro_rules! impl_sut {
     ($Q:ty, $P:ty, $U:ty, $qt:expr, $toimg:ident, $fromimg:ident, $pxacc:ident, $pxload:ident) => {
         impl Sut for $Q {
@@ -250,25 +328,37 @@ macro_rules! impl_sut {
             fn from_img(img: &Img, via: u8) -> Self {
                 match via {
                     0 => <$Q>::from_bits($fromimg(img)),
-                    _ => <$Q as Quire<$P>>::from_bits($fromimg(img)),
+                    _ => match <$Q as PxFacade>::px_from_img(img) {
+                        Some(q) => q,
+                        None => <$Q as Quire<$P>>::from_bits($fromimg(img)),
+                    },
                 }
             }
             fn img(&self, via: u8) -> Img {
                 match via {
                     0 => $toimg(<$Q>::to_bits(self)),
-                    _ => $toimg(<$Q as Quire<$P>>::to_bits(self)),
+                    _ => match PxFacade::px_img(self) {
+                        Some(i) => i,
+                        None => $toimg(<$Q as Quire<$P>>::to_bits(self)),
+                    },
                 }
             }
             fn is_zero(&self, via: u8) -> bool {
                 match via {
                     0 => <$Q>::is_zero(self),
-                    _ => <$Q as Quire<$P>>::is_zero(self),
+                    _ => match PxFacade::px_is_zero(self) {
+                        Some(z) => z,
+                        None => <$Q as Quire<$P>>::is_zero(self),
+                    },
                 }
             }
             fn is_nar(&self, via: u8) -> bool {
                 match via {
                     0 => <$Q>::is_nar(self),
-                    _ => <$Q as Quire<$P>>::is_nar(self),
+                    _ => match PxFacade::px_is_nar(self) {
+                        Some(z) => z,
+                        None => <$Q as Quire<$P>>::is_nar(self),
+                    },
                 }
             }
             fn to_posit(&self, via: u8) -> u32 {
@@ -296,13 +386,21 @@ macro_rules! impl_sut {
             fn clear(&mut self, via: u8) {
                 match via {
                     0 => <$Q>::clear(self),
-                    _ => <$Q as Quire<$P>>::clear(self),
+                    _ => {
+                        if !PxFacade::px_clear(self) {
+                            <$Q as Quire<$P>>::clear(self)
+                        }
+                    }
                 }
             }
             fn neg(&mut self, via: u8) {
                 match via {
                     0 => <$Q>::neg(self),
-                    _ => <$Q as Quire<$P>>::neg(self),
+                    _ => {
+                        if !PxFacade::px_neg(self) {
+                            <$Q as Quire<$P>>::neg(self)
+                        }
+                    }
                 }
             }
             fn acc(&mut self, sp: Sp, sub: bool, o: &[u32]) {
